@@ -119,6 +119,31 @@ def check_case(case):
         if last is not None and (te - last) * d < -64 * e * tsc:
             r.v("C07/order/%s" % name, "events are listed in the order they are met", cs, observed=dict(t_prev=last, t_e=te, travel=d), expected="monotone along the direction of integration")
         last = te
+    # (g) the per-function view of the same record (events_dict): for every event function exactly its tuples, in the order of the list
+    if len(a.events):
+        try:
+            ed = a.events_dict
+            fns = []
+            for st in a.events:
+                if not any(st.event is g_ for g_ in fns):
+                    fns.append(st.event)
+            bad = None
+            if len(ed) != len(fns):
+                bad = dict(functions_in_dict=len(ed), functions_in_list=len(fns))
+            else:
+                for g_ in fns:
+                    want_t = [float(st.t) for st in a.events if st.event is g_]
+                    want_y = [np.asarray(st.y, dtype=LD) for st in a.events if st.event is g_]
+                    ent = ed.get(g_)
+                    got_t = None if ent is None else [float(x) for x in np.asarray(ent.t).reshape(-1)]
+                    if ent is None or ent.event is not g_ or got_t != want_t or np.asarray(ent.y).shape[0] != len(want_t) or \
+                            any(not np.array_equal(np.asarray(ent.y[i], dtype=LD), want_y[i]) for i in range(len(want_t))):
+                        bad = dict(event_index=evs.index(g_), dict_times=got_t, list_times=want_t)
+                        break
+            if bad is not None:
+                r.v("C07/events-dict/%s" % name, "events_dict holds, per event function, exactly the tuples of that function in the order of the events list", case, observed=bad, expected="same record")
+        except Exception as ex:
+            r.v("C07/events-dict/%s" % name, "events_dict holds, per event function, exactly the tuples of that function in the order of the events list", case, observed=repr(ex)[:200], expected="same record")
     r.out(("cell", name, case["problem"], int(d), case["dense"], len(case["events"]), min(len(a.events), 4)))
     if hash(str(case)) % 1999 == 0:
         r.samples.append(dict(case=case, reported=[float(x.t) for x in a.events], rows=len(a)))
